@@ -58,6 +58,7 @@ def configs(tier):
                     cfgs.append(dict(group='selfcomp', cls=cls, mode=mode, storage=st, imputer=imp, d=2, q=1, T=T, cap=2,
                                      _cost=500 if st in ('uniform', 'geometric') else 100))
         cfgs.append(dict(group='selfcomp', cls=cls, mode='static', storage='batch', imputer='product', d=3, q=1, T=3, cap=2, _cost=3000))
+        cfgs.append(dict(group='selfcomp', cls=cls, mode='static', storage='batch', imputer='joint', d=3, q=1, T=3, cap=2, _cost=3000))
         if tier == 'thorough':
             cfgs.append(dict(group='selfcomp', cls=cls, mode='dynamic', storage='geometric', imputer='joint', d=3, q=1, T=3, cap=2, _cost=5000))
     for cls in ('BatchSage', 'IntervalSage'):
@@ -267,9 +268,21 @@ def _prelude(env):
         imp.impute(['f0'], {'f0': 1, 'f1': 2}, 2)
 
 
-def _build(env, cfg, data):
+def _fresh_str(s):
+    """an equal string that is a different object (as one parsed from JSON / argv / a config file would be)"""
+    out = ''.join(list(s))
+    assert out == s and (out is not s or len(s) < 2)
+    return out
+
+
+def _build(env, cfg, data, fresh=False):
+    """fresh=False: configuration values are the interned literals a script would contain; fresh=True: equal-by-value copies
+    with other identities (strings from a parser).  "Identically configured" means equal, not identical."""
+    import sys as _sys
     cls = IncrementalSage if cfg['cls'] == 'IncrementalSage' else IncrementalPFI
     names = names_for('str', cfg['d'])
+    names = [_fresh_str(n) for n in names] if fresh else [_sys.intern(n) for n in names]
+    strategy = _fresh_str(cfg['imputer']) if fresh else _sys.intern(cfg['imputer'])
     model, loss = UFModel(env, names), UFLoss(env)
     dynamic = cfg['mode'] == 'dynamic'
     kw = dict(n_inner_samples=cfg['q'], dynamic_setting=dynamic)
@@ -287,7 +300,7 @@ def _build(env, cfg, data):
         storage = GeometricReservoirStorage(size=cfg['cap'], constant_probability=data['p'])
     if storage is not None:
         kw['storage'] = storage
-        kw['imputer'] = MarginalImputer(model, cfg['imputer'], storage)
+        kw['imputer'] = MarginalImputer(model, strategy, storage)
     ex = cls(model, loss, names, **kw)
     return ex
 
@@ -301,7 +314,7 @@ def _observe(ex):
 def _run(env, cfg, data, py, np_, entropy, id_base):
     obs = []
     with _patched_entropy(env, py, np_, entropy, id_base):
-        ex = _build(env, cfg, data)
+        ex = _build(env, cfg, data, fresh=(id_base != 1000))      # replay B: equal configuration, other object identities
         for (x, y) in data['stream']:
             ex.explain_one(x, y)
             obs.append(_observe(ex))
